@@ -15,7 +15,8 @@ from gherkin.token_matcher_markdown import GherkinInMarkdownTokenMatcher as MD
 ROLES = ["FeatureLine", "RuleLine", "BackgroundLine", "ScenarioLine", "ExamplesLine"]
 ROLE_CATS = {"FeatureLine": ["feature"], "RuleLine": ["rule"], "BackgroundLine": ["background"], "ScenarioLine": ["scenario", "scenarioOutline"],
              "ExamplesLine": ["examples"]}
-TITLES = ["", " name here ", "x", " issue #", " see ticket ##  ", " #", " C# and F#", " trailing colon: ", " `@tag` in title"]
+TITLES = ["", " name here ", "x", " issue #", " see ticket ##  ", " #", " C# and F#", " trailing colon: ", " `@tag` in title",
+          ":smile: works", ":", "::x", " : spaced", "\ttab before", " #", "# x", " - x", "* y", " | a |", "\u00e9", ":\u00a0", " a:b", "\uff1a x", " x \\", " <a>", " \"\"\""]
 
 
 def tok(line):
@@ -244,6 +245,53 @@ def check_tags(case, stats):
             raise Violation(case, "line %r: tags %r, expected %r" % (line, have, want))
 
 
+def quoted_tags(text):
+    """[(tag, 0-based offset of its backtick)]: scanning from the left, a backtick directly followed by '@', at least one more character that is
+    not a backtick, and the next backtick; scanning resumes behind that closing backtick.  A backtick not followed by '@' quotes nothing."""
+    out, i = [], 0
+    while i < len(text):
+        if text.startswith("`@", i):
+            k = text.find("`", i + 2)
+            if k > i + 2:
+                out.append((text[i + 1:k], i))
+                i = k + 1
+                continue
+        i += 1
+    return out
+
+
+def check_tags_raw(case, stats):
+    """any short line over backtick, '@', a letter, blank: stray and unbalanced backticks included"""
+    line = case["line"]
+    body = line.lstrip(" ")
+    ind = len(line) - len(body)
+    want = [(tg, ind + off + 2) for tg, off in quoted_tags(body.rstrip("\n"))]
+    stats.case(line, len(want) >= 1 and line.count("`") % 2 == 1, sample=case, labels=["tags=%d" % len(want)])
+    t = tok(line + "\n")
+    got = MD("en").match_TagLine(t)
+    have = [(i["text"], i["column"]) for i in t.matched_items] if got else []
+    if got != bool(want) or have != want:
+        raise Violation(case, "line %r: match_TagLine returned %r with tags %r, the backtick-quoted '@' words are %r" % (line, got, have, want))
+
+
+def unit_tags_raw(a):
+    import itertools
+    stats = Stats()
+
+    def gen():
+        n = 0
+        for L in range(0, a["maxlen"] + 1):
+            for tup in itertools.product("`@a ", repeat=L):
+                n += 1
+                if n % a["nshards"] == a["shard"]:
+                    yield {"sub": "tags-raw", "line": "".join(tup)}
+        for ln in ("a lone ` is literal here: `@smoke`", "  5` wide, tagged `@wip`", "`a`@b`c`", "``@a``", "```@a```", "`@a` `` `@b`", "`@a``@b`", "` `@a` `", "x`@a", "`@a b` `@c`", "`@`@a`", "`@\t`", "@a `@b` @c",
+                   "\t`@a`", "   `@a`\t`@b`  ", "`@a`\u3000`@b`", "`@\u00e9` \U0001F600 `@\U0001F600`"):
+            yield {"sub": "tags-raw", "line": ln}
+    sweep(stats, gen(), check_tags_raw)
+    return stats
+
+
 def unit_tags(a):
     stats = Stats()
     strat = st.binary(min_size=40, max_size=40).map(lambda b: g_tagline(Src(b)))
@@ -286,6 +334,8 @@ def replay(case, stats):
         return check_table_intact(case, stats)
     if case["sub"] == "cross":
         return check_cross(case, stats)
+    if case["sub"] == "tags-raw":
+        return check_tags_raw(case, stats)
     return {"title": check_title, "step": check_step, "table": check_table, "tags": check_tags}[case["sub"]](case, stats)
 
 
@@ -296,8 +346,9 @@ def run(ctx):
     ctx.units("step-lines", unit_steps, [{"shard": i, "nshards": ns} for i in range(ns)], procs=ns)
     ctx.units("table-lines", unit_tables, [{}])
     ctx.units("tag-lines", unit_tags, [{"n": 2250 if q else 12000, "seed": ctx.seed, "shard": i} for i in range(8 if q else 16)], procs=16)
+    ctx.units("tag-lines-raw-exhaustive", unit_tags_raw, [{"maxlen": 8 if q else 10, "shard": i, "nshards": ns} for i in range(ns)], procs=ns)
     ctx.exhaustive = False
-    ctx.extra["exhaustive_part"] = ("80 dialects x every title keyword x header depth 1..7 x indentation 0..3 x 3 titles (+ no blank after the hashes, no prefix); every step keyword x "
+    ctx.extra["exhaustive_part"] = ("every line of length <= 8 (thorough 10) over backtick, '@', a letter and a blank for the tag matcher; 80 dialects x every title keyword x header depth 1..7 x indentation 0..3 x 3 titles (+ no blank after the hashes, no prefix); every step keyword x "
                                    "bullet * + - x 1..2 blanks x indentation 0..3 (+ without bullet); table indentation 0..8 x 10 rows: complete in both tiers")
     ctx.rule = ("fresh GherkinInMarkdownTokenMatcher per line; oracle from the language table and MARKDOWN_WITH_GHERKIN.md: role recognised iff 1..6 hashes + blank + listed keyword + ':', "
                 "keyword = first listed, trimmed title, column = indent + depth + 2; other roles only where the table lists a fitting keyword; list item + step keyword = step with "
